@@ -16,7 +16,7 @@ RULE_C07 = ('operation scripts over up to 4 registers holding quantiles_sketch<i
             '<string, greater> (order-isomorphic encoding): k in {2,4,8,16,32,128} plus refused k (0,1,3,6,100,65535,65536); streams sorted/reversed/random/constant/'
             'heavy duplicates of 0..~3000 items, lengths aimed at multiples of 2k (empty base buffer, bit patterns with gaps and with carry chains); every combination of '
             '{empty, exact, estimating} target x {empty, exact, estimating} source x {k smaller, equal, larger} merge (standard, downsampling in both directions, '
-            'result built on a copy of the source), lvalue and rvalue, merge chains and trees, copies; after the history every register is observed (n, k, min, max, '
+            'result built on a copy of the source), lvalue and rvalue, merge chains and trees, copies, copy/move assignment; deterministic "query, then change the content (every merge case incl. empty source base buffer, update, assignment, copy), then the same queries" cases so that every content-changing path runs on a sketch holding a cached sorted view; after the history every register is observed (n, k, min, max, '
             'num_retained, iterator listing) and queried: rank grid, dyadic quantile grid incl. 0 and 1 and out-of-range ranks, CDF/PMF with valid, unsorted, '
             'duplicate and NaN split points, sorted-view listing; queries are also interleaved with updates (they sort the base buffer in place). '
             'non-trivial = at least one compaction (random choice drawn) or one merge')
@@ -196,6 +196,16 @@ class Builder:
             self.new(r2, k2, kd)
     def copy(self, r, r2):
         self.ops.append([13, r, r2]); self.sims[r] = self.sims[r2].copy(); self.vals[r] = list(self.vals[r2])
+    def assign(self, r, r2, move):
+        """r = r2 / r = std::move(r2) on two existing sketches of the same item type"""
+        self.ops.append([16 if move else 15, r, r2])
+        if self.sims[r].kind != self.sims[r2].kind:
+            return
+        self.sims[r] = self.sims[r2].copy(); self.vals[r] = list(self.vals[r2])
+        if move:
+            k2 = self.sims[r2].k; kd = self.sims[r2].kind
+            del self.sims[r2]; del self.vals[r2]
+            self.new(r2, k2, kd)
 
 def gen_c07(rng, tier):
     thorough = tier != 'quick'
@@ -222,6 +232,71 @@ def gen_c07(rng, tier):
                         b.ops += query_block(rng, r, kind, b.vals[r], thorough)
                     cases.append(dict(id='cqd%d' % idx, ops=b.ops, tags=sorted(b.tags | {'merge'})))
                     idx += 1
+    # directed: every path that changes the content of a sketch that HOLDS A CACHED SORTED VIEW (it has answered a query)
+    # is followed by the same queries again: query -> merge (every case) -> query, and the same around update, copy,
+    # copy/move assignment
+    def probes(b, r, pts):
+        ops = [[6, r, x] for x in pts] + [[7, r, j, 3] for j in (0, 1, 4, 7, 8)] + [[8, r] + pts[:4], [10, r], [5, r]]
+        return ops
+    tstates = ['empty', 'exact', 'est', 'est0']           # est0: estimating with an empty base buffer
+    sstates = ['empty', 'exact', 'est', 'est0']
+    for sa in tstates:
+        for so in sstates:
+            for rel in ('lt', 'eq', 'gt'):
+                for mode in (0, 1):
+                    kind = rng.choice([0, 0, 1, 2])
+                    b = Builder(rng, kind)
+                    b.ops.append([99, rng.randrange(1 << 30)])
+                    ka = rng.choice([4, 8]); f = rng.choice([2, 2, 4])
+                    ko = ka * f if rel == 'lt' else (ka if rel == 'eq' else ka // f)
+                    def ln(k, stt):
+                        if stt == 'empty': return 0
+                        if stt == 'exact': return rng.randrange(1, 2 * k)
+                        m = rng.choice([1, 2, 3, 5, 6])
+                        return 2 * k * m + (0 if stt == 'est0' else rng.randrange(1, 2 * k))
+                    b.new(0, ka); b.new(1, ko)
+                    b.feed(0, [10 * i for i in range(ln(ka, sa))])
+                    b.feed(1, [10 * i + 5 + rng.choice([0, 1000]) for i in range(ln(ko, so))])
+                    allv = sorted(set(b.vals[0] + b.vals[1])) or [0]
+                    pts = sorted(set([allv[0] - 1, allv[0], allv[len(allv) // 3], allv[len(allv) // 2], allv[-1], allv[-1] + 1] +
+                                     [rng.choice(allv) for _ in range(3)]))
+                    b.ops += probes(b, 0, pts)                                           # the view of the target is cached now
+                    if rng.random() < 0.5:
+                        b.ops += probes(b, 1, pts)
+                    b.merge(0, 1, mode)
+                    b.ops += probes(b, 0, pts)                                           # must reflect the merged sketch
+                    b.feed(0, [7]); b.ops += probes(b, 0, pts)                           # ... and one more update
+                    cases.append(dict(id='cqv%d' % idx, ops=b.ops, tags=sorted(b.tags | {'merge', 'cached-view'})))
+                    idx += 1
+    for rep in range(12 if not thorough else 60):
+        kind = rng.choice([0, 1, 2])
+        b = Builder(rng, kind)
+        b.ops.append([99, rng.randrange(1 << 30)])
+        k = rng.choice([2, 4, 8]); b.new(0, k); b.new(1, rng.choice([2, 4, 8])); b.new(2, k)
+        b.feed(0, stream(rng, length_for(rng, k, rng.choice(['exact', 'est', 'est']))))
+        b.feed(1, [x + 3 for x in stream(rng, length_for(rng, b.sims[1].k, rng.choice(['empty', 'exact', 'est'])))])
+        allv = sorted(set(b.vals[0] + b.vals[1])) or [0]
+        pts = sorted(set([allv[0] - 1, allv[0], allv[len(allv) // 2], allv[-1], allv[-1] + 1] + [rng.choice(allv) for _ in range(3)]))
+        for r in (0, 1, 2):
+            b.ops += probes(b, r, pts)
+        what = rep % 6
+        if what == 0:       # updates up to and across the next compaction
+            for x in stream(rng, 2 * k + 1):
+                b.feed(0, [x]); b.ops += [[6, 0, x], [7, 0, 4, 3]]
+        elif what == 1:     # copy assignment onto a sketch with a cached view
+            b.assign(0, 1, False)
+        elif what == 2:     # move assignment onto a sketch with a cached view
+            b.assign(0, 1, True)
+        elif what == 3:     # assignment from a sketch with a cached view, then the source keeps changing
+            b.assign(2, 0, False); b.feed(0, stream(rng, 3)); b.ops += probes(b, 0, pts)
+        elif what == 4:     # copy construction from a sketch with a cached view
+            b.copy(2, 0); b.feed(2, stream(rng, 2))
+        else:               # NaN update (ignored) must leave the answers alone
+            b.ops.append([3, 0])
+        for r in sorted(b.sims):
+            b.ops += probes(b, r, pts)
+        b.feed(0, [1]); b.ops += probes(b, 0, pts)
+        cases.append(dict(id='cqw%d' % rep, ops=b.ops, tags=sorted(b.tags | {'cached-view', 'assign' if what in (1, 2, 3) else 'update'})))
     # directed: downsampling merges between two estimating sketches (both directions), chains of them
     for rep in range(12 if not thorough else 120):
         kind = rng.choice([0, 0, 1, 2])
@@ -347,6 +422,12 @@ def oracle_c07(case, irecs, mrecs):
         if oc == 13:
             if R == [1] and op[2] in regs:
                 g2 = regs[op[2]]; regs[r] = dict(log=list(g2['log']), epoch=i, kind=g2['kind'])
+            continue
+        if oc in (15, 16):
+            if R == [1] and op[2] in regs and r in regs:
+                g2 = regs[op[2]]; regs[r] = dict(log=list(g2['log']), epoch=i, kind=g2['kind'])
+                if oc == 16:
+                    del regs[op[2]]
             continue
         if r not in regs:
             if R != [-1]:
@@ -676,6 +757,8 @@ MANIFEST_C08 = dict(
 #   M16 const_iterator operator++ shifts bit_pattern also when entering level 0          C07 (iterator listing)
 #   M18 get_quantile refuses rank == 1.0                                                 C07 (cq_quantile_refused)
 #   M19 merge(): exact target into estimating source takes the update path for k_ >= other.k (should be <=)   C07
+#   M20 (seeded C07-3) merge() no longer calls reset_sorted_view() at its end                C07 (cq_rank_vs_view; needs the 'cached-view' directed cases:
+#       estimating target that has answered a query + estimating source with an empty base buffer and k >= target's)
 # Harmless rewrites, not reported (exit 0 for C07 and C08):
 #   H1  merge_two_size_k_buffers takes ties from the other side
 #   H2  merge(): k_ <= other.k -> k_ < other.k in the exact-target branch (downsampling_merge with factor 1 does the same)
